@@ -26,6 +26,9 @@ TD = TOpaque('Deferred')
 TCB = TOpaque('linecb')
 TCmd = TTuple('Cmd', [TD, TBytes(), TOpt(TCB, 'OptCb')])
 TOptCmd = TOpt(TCmd, 'OptCmd')
+TEvent = TOpaque('Event')
+TL = TOpaque('listener')
+F_join = z3.Function('str_join', z3.StringSort(), z3.SeqSort(z3.StringSort()), z3.StringSort())
 TCmds = TSeq(TCmd)
 CRLF = mk_str('\r\n')
 
@@ -101,7 +104,20 @@ class ControlModels(CommonModels):
             H[('g', 'done')] = VSeq(z3.If(z3.And(lost.t, nonempty), z3.Concat(dn.t, X), dn.t), TCmd)
 
     # ---- externals
+    def join_hook(self, ex, path, sep, a):
+        if isinstance(a, VSeq) and isinstance(sep, VStr):
+            self.assumptions.add("sep.join(list) is a function of (sep, list) (uninterpreted; A7); event names are ASCII (A9) so the joined text is")
+            r = F_join(sep.t, a.t)
+            path.assume(z3.InRe(r, z3.Star(z3.Range(mk_str('\x00'), mk_str('\x7f')))))
+            return [(path, VStr(r))]
+        return None
+
     def opaque_attr(self, ex, path, obj, name):
+        if obj.kind == 'Event':
+            if name == 'name':
+                return [(path, VStr(z3.Select(path.heap[('g', 'ev_name')], obj.t)))]
+            if name == 'callbacks':
+                return [(path, VSeq(z3.Select(path.heap[('g', 'ev_cbs')], obj.t), TL))]
         if obj.kind == 'OnDisconnect':
             # the deprecated on_disconnect Deferred with nothing attached (trusted base)
             if name == 'called':
@@ -187,10 +203,37 @@ class ControlModels(CommonModels):
                 self.glog_add(path, 'writes', args[0])
                 return [(path, NONE)]
             if recv.kind == 'Event' and name == 'got_update':
-                # contract of Event.got_update, proved in props/C02 (fan-out loop)
-                self.glog_add(path, 'delivered', (recv, args[0]))
+                # contract of Event.got_update, proved in props/C02 (fan-out loop): every listener
+                # registered at this moment is called once with the payload; listeners may
+                # add/remove listeners and submit commands (rely A11)
+                self.glog_add(path, 'delivered', (recv, args[0], z3.Select(path.heap[('g', 'ev_cbs')], recv.t)))
                 self.reenter(ex, path)
+                n = path.fresh()
+                H = path.heap
+                oid = ('c', id(real_proto()))
+                H[('f', oid, 'events')] = TMap(TStr(), TEvent, ordered=True).fresh('events_h%d' % n)
+                H[('g', 'ev_cbs')] = z3.Const('ev_cbs_h%d' % n, z3.ArraySort(z3.IntSort(), z3.SeqSort(z3.IntSort())))
                 return [(path, NONE)]
+            if recv.kind == 'Event' and name == 'listen':
+                # contract of Event.listen (proved in props/C02): append
+                H = path.heap
+                cbs = z3.Select(H[('g', 'ev_cbs')], recv.t)
+                H[('g', 'ev_cbs')] = z3.Store(H[('g', 'ev_cbs')], recv.t, z3.Concat(cbs, z3.Unit(TL.unwrap(args[0]))))
+                return [(path, NONE)]
+            if recv.kind == 'Event' and name == 'unlisten':
+                H = path.heap
+                cbs = z3.Select(H[('g', 'ev_cbs')], recv.t)
+                u = z3.Unit(TL.unwrap(args[0]))
+                out = []
+                pt, pf = ex.branch(path, z3.Contains(cbs, u))
+                if pt is not None:
+                    i = z3.IndexOf(cbs, u, 0)
+                    new = z3.Concat(z3.SubString(cbs, 0, i), z3.SubString(cbs, i + 1, z3.Length(cbs)))
+                    pt.heap[('g', 'ev_cbs')] = z3.Store(pt.heap[('g', 'ev_cbs')], recv.t, new)
+                    out.append((pt, NONE))
+                if pf is not None:
+                    out.extend(ex.raise_(pf, ValueError, 'list.remove(x): x not in list'))
+                return out
         return CommonModels.method(self, ex, path, recv, name, args, kw)
 
     def opaque_call(self, ex, path, f, args, kw):
@@ -228,35 +271,74 @@ class ControlModels(CommonModels):
         self.glog_add(path, 'observer_fired', (inst, value))
         path.heap[('g', 'lost')] = VBool(True)
 
-    # str.split() on a symbolic string: exact description of the first token (A7)
+    # str.split() on a symbolic string (A7): an uninterpreted function whose first token is
+    # characterised exactly (maximal whitespace-free run after leading whitespace)
     def split_hook(self, ex, path, s, args, kw):
         if args or kw or not isinstance(s, VStr):
             return None
         self.assumptions.add('str.split(): tokens are the maximal whitespace-free runs; first token characterised exactly')
         n = path.fresh()
         lead = z3.String('split_lead!%d' % n)
-        t0 = z3.String('split_tok0!%d' % n)
         rest = z3.String('split_rest!%d' % n)
-        more = z3.Const('split_more!%d' % n, z3.SeqSort(z3.StringSort()))
         ws = z3.Star(re_ws())
-        nonws = z3.Plus(z3.Complement(z3.Concat(z3.Full(z3.ReSort(z3.StringSort())), re_ws(),
-                                                 z3.Full(z3.ReSort(z3.StringSort())))))
         allws = z3.InRe(s.t, ws)
-        out = []
-        pt, pf = ex.branch(path, allws)
-        if pt is not None:
-            out.append((pt, VSeq(z3.Empty(z3.SeqSort(z3.StringSort())), TStr())))
-        if pf is not None:
-            pf.assume(s.t == z3.Concat(lead, t0, rest))
-            pf.assume(z3.InRe(lead, ws))
-            pf.assume(z3.Length(t0) > 0)
-            pf.assume(z3.Not(z3.Contains(t0, mk_str(' '))))
-            for c in WS_STR[1:]:
-                pf.assume(z3.Not(z3.Contains(t0, mk_str(c))))
-            pf.assume(z3.Or(z3.Length(rest) == 0, is_ws_char(z3.SubString(rest, 0, 1))))
-            pf.assume(z3.Implies(z3.Length(rest) == 0, z3.Length(more) == 0))
-            out.append((pf, VSeq(z3.Concat(z3.Unit(t0), more), TStr())))
-        return out
+        t0 = F_tok(s.t, 0)
+        ntok = F_ntok(s.t)
+        path.assume_def([lead, rest], [
+            ntok >= 0,
+            z3.Implies(allws, ntok == 0),
+            z3.Implies(z3.Not(allws), z3.And(
+                ntok >= 1,
+                s.t == z3.Concat(lead, t0, rest), z3.InRe(lead, ws), z3.Length(t0) > 0, no_ws_in(t0),
+                z3.Or(z3.Length(rest) == 0, is_ws_char(z3.SubString(rest, 0, 1))),
+                z3.Implies(z3.Length(rest) == 0, ntok == 1)))])
+        # the axioms are about the applications F_tok(s, .), F_ntok(s): reachable from those symbols
+        path.defs[-1] = (path.defs[-1][0] | frozenset(['str_split_tok', 'str_split_ntok']), path.defs[-1][1])
+        return [(path, VTokens(s.t))]
+
+    def index(self, ex, path, o, i):
+        if isinstance(o, VTokens) and isinstance(i, VInt):
+            n = F_ntok(o.s)
+            out = []
+            ok, ci = concrete_of(i)
+            inb = z3.And(i.t < n, i.t >= -n)
+            pt, pf = ex.branch(path, inb)
+            if pt is not None:
+                idx = i.t if (ok and ci >= 0) else z3.If(i.t < 0, i.t + n, i.t)
+                out.append((pt, VStr(F_tok(o.s, idx))))
+            if pf is not None:
+                out.extend(ex.raise_(pf, IndexError, 'list index out of range'))
+            return out
+        return CommonModels.index(self, ex, path, o, i)
+
+    def len_hook(self, ex, path, v):
+        if isinstance(v, VTokens):
+            return [(path, VInt(F_ntok(v.s)))]
+        return None
+
+    def str_format(self, ex, path, fmt, arg):
+        ok, c = concrete_of(fmt)
+        if ok and c.count('%') == 1 and c.count('%s') == 1:
+            a = arg.items[0] if isinstance(arg, VTuple) and len(arg.items) == 1 else arg
+            if isinstance(a, VStr):
+                pre, post = c.split('%s')
+                return [(path, VStr(z3.Concat(mk_str(pre), a.t, mk_str(post))))]
+        return CommonModels.str_format(self, ex, path, fmt, arg)
+
+
+F_tok = z3.Function('str_split_tok', z3.StringSort(), z3.IntSort(), z3.StringSort())
+F_ntok = z3.Function('str_split_ntok', z3.StringSort(), z3.IntSort())
+
+
+class VTokens(V):
+    """result of s.split(): tokens given by uninterpreted F_tok(s, k), k < F_ntok(s)"""
+    def __init__(self, s):
+        self.s = s
+
+
+
+def no_ws_in(t):
+    return z3.And(*[z3.Not(z3.Contains(t, mk_str(c))) for c in WS_STR])
 
 
 # ------------------------------------------------------------------------------------------
@@ -343,6 +425,12 @@ def make_proto(ctx, path, fsm_state, lost=None, cmd_kind=None):
     H[('f', oid, 'on_disconnect')] = VOpaque('OnDisconnect', 9002)
     wd = VConc(proto._when_disconnected)
     H[('f', ex.oid_of(wd), 'g_fired')] = VBool(lost0)
+    # events: name -> Event (identity = Int); per-Event abstract state in arrays
+    ev = TMap(TStr(), TEvent, ordered=True).fresh('events0')
+    H[('f', oid, 'events')] = ev
+    H[('f', oid, 'valid_events')] = TMap(TStr(), TEvent).fresh('valid_events0')
+    H[('g', 'ev_cbs')] = z3.Const('ev_cbs0', z3.ArraySort(z3.IntSort(), z3.SeqSort(z3.IntSort())))
+    H[('g', 'ev_name')] = z3.Const('ev_name0', z3.ArraySort(z3.IntSort(), z3.StringSort()))
     H[('g', 'lost')] = VBool(lost0)
     H[('g', 'submitted')] = VSeq(submitted0, TCmd)
     H[('g', 'done')] = VSeq(done0, TCmd)
